@@ -132,6 +132,11 @@ TrimLeftCutset(s, cut) ==
       k0 == IF ks = {} THEN Len(s) + 1 ELSE CHOOSE k \in ks : \A j \in ks : k <= j
   IN  SubSeq(s, k0, Len(s))
 CutsetTag == "cloc.topfile.location-cutset"
+\* a console table pads its cells: leading and trailing blanks of a cell cannot be observed
+RECURSIVE StripL(_), StripR(_)
+StripL(s) == IF Len(s) > 0 /\ SubSeq(s, 1, 1) = " " THEN StripL(SubSeq(s, 2, Len(s))) ELSE s
+StripR(s) == IF Len(s) > 0 /\ SubSeq(s, Len(s), Len(s)) = " " THEN StripR(SubSeq(s, 1, Len(s) - 1)) ELSE s
+Strip(s) == StripR(StripL(s))
 
 LangIdx(in, S, l) == {i \in S : F(in, i).lang = l}
 
@@ -156,7 +161,7 @@ DiffConsoleTable(root, in, tb) ==
       all == LangIdx(in, MustIdx(in) \cup MayIdx(in), l)
       lens == {Min2(in.top, Cardinality(S)) : S \in Cands(in, l)}
       explains(k) == \E i \in all : F(in, i).code = tb.rows[k].code
-                                    /\ tb.rows[k].loc = TrimLeftCutset(Full(root, in, i), root)
+                                    /\ tb.rows[k].loc = Strip(TrimLeftCutset(Full(root, in, i), root))
                                     /\ tb.rows[k].loc \notin Forms(root, in, i)
       tagOf(k) == IF explains(k) THEN {CutsetTag} ELSE {}
       listed(k) == \E i \in all : tb.rows[k].loc \in Forms(root, in, i) /\ F(in, i).code = tb.rows[k].code
@@ -165,7 +170,8 @@ DiffConsoleTable(root, in, tb) ==
        ELSE IF codes \notin {SubSeq(SortDesc(in, S), 1, Min2(in.top, Cardinality(S))) : S \in Cands(in, l)}
             THEN {Item("top-wrong-figures", w, {})} ELSE {}) \cup
       {Item("top-row-mismatch", w \o ":" \o tb.rows[k].loc, tagOf(k)) : k \in {x \in DOMAIN tb.rows : ~listed(x)}} \cup
-      {Item("top-row-duplicate", w \o ":" \o tb.rows[k].loc, tagOf(k)) :
+      {Item("top-row-duplicate", w \o ":" \o tb.rows[k].loc,
+            IF \E y \in DOMAIN tb.rows : tb.rows[y].loc = tb.rows[k].loc /\ explains(y) THEN {CutsetTag} ELSE {}) :
          k \in {x \in DOMAIN tb.rows : \E y \in DOMAIN tb.rows : y # x /\ tb.rows[y].loc = tb.rows[x].loc}}
 
 \* Free_ConsoleOmittedManyLanguages: the statement sets no limit on the console listing, and the
